@@ -457,7 +457,13 @@ class EventManager(MpfController):
                                                              _future=future,
                                                              _keys=keys,
                                                              event=event_name)))
+        future.add_done_callback(partial(self._wait_cancelled, keys))
         return future
+
+    def _wait_cancelled(self, _keys: List[EventHandlerKey], future: asyncio.Future):
+        """Remove the handlers of a wait which has been cancelled (nobody will ever consume the event)."""
+        if future.cancelled():
+            self.remove_handlers_by_keys(_keys)
 
     def _wait_handler(self, _future: asyncio.Future, _keys: List[EventHandlerKey], **kwargs):
         for key in _keys:
